@@ -97,12 +97,18 @@ def evaluate_checked(prob, name, dim, x, as_numpy, clause, how):
     """clauses T and B on one point; returns the value"""
     import numpy as np
     from artap.individual import Individual
-    vec = [np.float64(v) for v in x] if as_numpy else [float(v) for v in x]
+    if as_numpy == "ndarray":
+        vec = np.array([float(v) for v in x], dtype=float)      # the form in which SciPy-style callers hold a point
+    else:
+        vec = [np.float64(v) for v in x] if as_numpy else [float(v) for v in x]
     reps = 3 if name == "XinSheYang3" else 1
     val = None
     for _ in range(reps):
         with guard(clause):
             out = prob.evaluate(Individual(vec))
+        if [float(v) for v in vec] != [float(v) for v in x]:
+            raise Violation(clause, "%s:design-moved-by-evaluate" % name, "%s(d=%s): evaluating the point %r changed it "
+                            "to %r" % (name, dim, [float(v) for v in x], [float(v) for v in vec]))
         try:
             n = len(out)
         except TypeError:
@@ -141,7 +147,7 @@ def point_cases(draw):
     t = [draw(st.floats(0.0, 1.0)) for _ in range(n)]
     pick = [draw(st.integers(0, 7)) for _ in range(n)]
     eps = draw(st.sampled_from([0.0, 1e-9, 1e-6, 1e-4, 1e-3, 1e-2]))
-    return {"cfg": ci, "kind": kind, "t": t, "pick": pick, "eps": eps, "np": draw(st.booleans())}
+    return {"cfg": ci, "kind": kind, "t": t, "pick": pick, "eps": eps, "np": draw(st.sampled_from([False, True, "ndarray"]))}
 
 
 def build_point(case, prob):
@@ -201,14 +207,14 @@ def check_points(case):
         dist = math.sqrt(sum((a - float(b)) ** 2 for a, b in zip(x, prob.global_optimum_coords)))
         near = dist <= 0.01 * diam
     boundary = any(a in (lb, ub) for a, (lb, ub) in zip(x, box))
-    return {"nt": near or boundary, "classes": [name, kind, "numpy" if case["np"] else "pyfloat"]}
+    return {"nt": near or boundary, "classes": [name, kind, "ndarray" if case["np"] == "ndarray" else "numpy" if case["np"] else "pyfloat"]}
 
 
 # ---------------------------------------------------------------- clause V: the documented optimum (enumerated)
 
 def optimum_items(tier):
     for i, (name, dim) in enumerate(OPT_CONFIGS):
-        for as_np in (False, True):
+        for as_np in (False, True, "ndarray"):
             yield {"cfg": i, "np": as_np}
 
 
